@@ -360,6 +360,8 @@ def rule_helpers(ctx, repo):
     for n in ls_init:
         if any(isinstance(a_, ast.AugAssign) and norm(a_.target) == n.targets[0].id for a_ in ast.walk(ls.node)):
             iv = repo.fold(n.value, ls.module)
+            if not isinstance(n.value, ast.Constant):
+                continue  # the first term of the sum written in place: read by the `legacy-sigops` terms above
             r.check(iv == 0 and not isinstance(iv, bool), 'legacy-sigops:starts-at-zero', common.site_of(ls, n), 'count starts at 0', 'GetLegacySigOpCount starts counting at %r' % (iv,), sure=isinstance(iv, int))
     blk = repo.get_class(CORE + 'CBlock')
     gi = repo.lookup_method(blk, 'get_witness_commitment_index')
